@@ -459,7 +459,9 @@ func (prop) Child(b core.Batch, o *core.Obs) {
 			for _, mode := range []string{"sequential", "concurrent"} {
 				for rep := 0; rep < 6; rep++ {
 					connNo++
-					ip := fmt.Sprintf("198.%d.%d.%d", 51+(connNo>>24)&3, (connNo>>16)&255+1, (connNo)&255)
+					// a source address of its own for every repetition (the services' anti-amplification limiter counts
+					// per source ip, 4 datagrams in 10 minutes)
+					ip := fmt.Sprintf("198.%d.%d.%d", 60+(connNo>>16)&63, (connNo>>8)&255, connNo&255)
 					ev0 := lab.Events.Len()
 					var wg sync.WaitGroup
 					for i, dg := range chunks {
@@ -493,7 +495,7 @@ func (prop) Child(b core.Batch, o *core.Obs) {
 				// is left out: it drops a source's datagrams unprocessed once its reply allowance is used up, by
 				// design (see the assumptions)
 				connNo++
-				ip := fmt.Sprintf("198.%d.%d.%d", 51+(connNo>>24)&3, (connNo>>16)&255+1, (connNo)&255)
+				ip := fmt.Sprintf("198.%d.%d.%d", 60+(connNo>>16)&63, (connNo>>8)&255, connNo&255)
 				for round := 0; round < 6; round++ {
 					ev0 := lab.Events.Len()
 					base := 21000 + round*100
